@@ -379,6 +379,12 @@ func definitelyNonNilErr(v ssa.Value) bool {
 	case *ssa.Call:
 		o := calleeObj(x)
 		return isFunc(o, "errors", "New") || isFunc(o, "fmt", "Errorf")
+	case *ssa.UnOp:
+		// exported sentinel errors of libraries (filepath.ErrBadPattern, io.EOF, filepath.SkipDir) are non-nil
+		if g, ok := x.X.(*ssa.Global); ok && x.Op == token.MUL {
+			n := g.Name()
+			return strings.HasPrefix(n, "Err") || n == "EOF" || n == "SkipDir" || n == "SkipAll"
+		}
 	case *ssa.Phi:
 		for _, e := range x.Edges {
 			if !definitelyNonNilErr(e) {
